@@ -117,7 +117,7 @@ def build_driver():
         return
     for s in srcs:
         sh(["cp", s, obuild])
-    order = ["model.mli", "model.ml"] + [f for f in ["engine_driver.ml", "driver.ml"]]
+    order = ["model.mli", "model.ml", "util.ml", "iter_driver.ml", "engine_driver.ml", "driver.ml"]
     rc, out, _ = sh("ocamlfind ocamlopt -O3 -w -a %s -o %s" % (" ".join(order), drv), cwd=obuild, timeout=600)
     if rc != 0:
         raise BuildError("ocaml-build", out)
